@@ -20,6 +20,9 @@ type Scenario struct {
 	Ctl   []CtlAction          `json:"ctl,omitempty"`
 	Disk  []DiskReading        `json:"disk,omitempty"`
 	HQ    *HQPlan              `json:"hq,omitempty"`
+	// LQFaults[op][k] applies to the k-th call of the local queue's database operation op ("get", "add", "delete"):
+	// "" = succeeds, "err" = fails; a last entry "err*" keeps failing for ever.
+	LQFaults map[string][]string `json:"lq_faults,omitempty"`
 	Sched SchedCfg             `json:"sched"`
 
 	StopAtIdle bool `json:"stop_at_idle"`
